@@ -2,6 +2,6 @@ SPECIFICATION Spec
 CONSTANTS
   StripsLastChar = FALSE
   MaxLines = 2
-  DigitFirstOnly = FALSE
+  DigitFirstOnly = TRUE
 INVARIANT FileReadOK
 INVARIANT Terminates
